@@ -31,25 +31,44 @@ class _TransformedFnCache(object):
   __slots__ = ('_cache',)
 
   def __init__(self):
-    self._cache = weakref.WeakKeyDictionary()
+    # Maps id(key) to a (weak reference to key, bucket) pair. Keys are tracked
+    # by identity rather than by equality: distinct code objects can compare
+    # equal (e.g. the same source loaded twice), and an entry must live exactly
+    # as long as the key object it was created for.
+    self._cache = {}
 
   def _get_key(self, entity):
     raise NotImplementedError('subclasses must override')
 
+  def _get_bucket(self, key):
+    entry = self._cache.get(id(key), None)
+    if entry is not None and entry[0]() is key:
+      return entry[1]
+    return None
+
   def has(self, entity, subkey):
     key = self._get_key(entity)
-    parent = self._cache.get(key, None)
+    parent = self._get_bucket(key)
     if parent is None:
       return False
     return subkey in parent
 
   def __getitem__(self, entity):
     key = self._get_key(entity)
-    parent = self._cache.get(key, None)
+    parent = self._get_bucket(key)
     if parent is None:
       # The bucket is initialized to support this usage:
       #   cache[key][subkey] = value
-      self._cache[key] = parent = {}
+      key_id = id(key)
+      cache = self._cache
+
+      def evict(ref):
+        entry = cache.get(key_id, None)
+        if entry is not None and entry[0] is ref:
+          del cache[key_id]
+
+      parent = {}
+      cache[key_id] = (weakref.ref(key, evict), parent)
     return parent
 
   def __len__(self):
